@@ -306,6 +306,13 @@ impl World {
     }
 }
 
+/// How far the simulated clock moves when a wait_for(d) timer fires: d rounded to whole seconds, so that the
+/// library's random backoff draws (which cannot be seeded) do not make the clock differ between two runs.
+pub fn timer_advance(d: Duration) -> i128 {
+    let ms = d.min(Duration::from_secs(86_400)).as_millis() as i128;
+    ((ms + 500) / 1000) * 1_000_000_000
+}
+
 pub fn open_gate(w: &W, id: usize) {
     let waker = {
         let mut g = lock(w);
@@ -317,7 +324,7 @@ pub fn open_gate(w: &W, id: usize) {
             GateLabel::TimerUntil(t) => g.log.push(Op::TimerFired { id: t }),
             GateLabel::TimerFor(t, d) => {
                 g.log.push(Op::TimerFired { id: t });
-                let adv = d.min(Duration::from_secs(86_400)).as_nanos() as i128;
+                let adv = timer_advance(d);
                 g.mono_ns += adv;
                 g.wall_ns += adv;
                 g.log.now = (g.wall_ns, g.mono_ns);
@@ -357,7 +364,7 @@ impl Future for GateFut {
                     GateLabel::TimerUntil(t) => g.log.push(Op::TimerFired { id: t }),
                     GateLabel::TimerFor(t, d) => {
                         g.log.push(Op::TimerFired { id: t });
-                        let adv = d.min(Duration::from_secs(86_400)).as_nanos() as i128;
+                        let adv = timer_advance(d);
                         g.mono_ns += adv;
                         g.wall_ns += adv;
                     }
@@ -937,6 +944,7 @@ fn render_body(spec: &BodySpec, view: Option<&ReqView>, prefix: bool) -> (Vec<u8
                     let keep = 1 + (*cut as usize % (full.len() - 1));
                     full[..keep].to_vec()
                 }
+                RawBody::Arbitrary(b) => b.clone(),
                 RawBody::WrongShape(k) => match k % 5 {
                     0 => b"{}".to_vec(),
                     1 => b"[]".to_vec(),
@@ -945,7 +953,8 @@ fn render_body(spec: &BodySpec, view: Option<&ReqView>, prefix: bool) -> (Vec<u8
                     _ => b"null".to_vec(),
                 },
             };
-            (b, BodyView::Unparseable)
+            let unknown = matches!(raw, RawBody::Arbitrary(_));
+            (b, if unknown { BodyView::Unknown } else { BodyView::Unparseable })
         }
     };
     if prefix {
